@@ -98,6 +98,7 @@ func rulesC07(c *Ctx) {
 	}
 	c07FinalizedKept(c, "storage/mkvs/db/badger")
 	c07ResolvedVersion(c, "storage/mkvs/db/badger")
+	c07IterKey(c)
 	if fn := c.needFn(rule, "storage/mkvs/db/badger.(*badgerNodeDB).Finalize"); fn != nil {
 		flush := CallsTo(fn, "versionBatch.Flush", bWB+".Flush", "NewWriteBatchAt")
 		commit := CallsTo(fn, "tx.CommitAt", bTX+".CommitAt", "")
@@ -396,5 +397,95 @@ func c07ResolvedVersion(c *Ctx, pk string) {
 	}
 	if bad == 0 {
 		c.Check(n > 0, rule, fname(fn)+":only the resolved multipart version is used", c.P.Pos(fn.Pos()), itoa(n)+" load(s) of the in-memory field, used only to resolve the version", "no use of the multipart version found")
+	}
+}
+
+// c07IterKey: a badger iterator item's Key() is only valid until the iterator
+// advances. It may be decoded or compared on the spot, but it must not be
+// handed to anything that keeps it (a write batch or transaction, an append,
+// a store into a struct or map): KeyCopy has to be used for that (F16).
+func c07IterKey(c *Ctx) {
+	const rule = "C07.iterkey"
+	n, bad := 0, 0
+	for _, pk := range []string{"storage/mkvs/db/badger", "storage/mkvs/db/pathbadger", "storage/mkvs/db/api"} {
+		for _, fn := range c.P.FuncsInPkg(pk) {
+			for _, call := range callsIn(fn) {
+				if calleeName(call) != "github.com/dgraph-io/badger/v4.(*Item).Key" {
+					continue
+				}
+				v := call.Value()
+				if v == nil {
+					continue
+				}
+				n++
+				c.Analysed[fname(fn)] = true
+				seen := map[ssa.Value]bool{}
+				work := []ssa.Value{v}
+				for len(work) > 0 {
+					x := work[len(work)-1]
+					work = work[:len(work)-1]
+					if seen[x] || x.Referrers() == nil {
+						continue
+					}
+					seen[x] = true
+					for _, r := range *x.Referrers() {
+						switch y := r.(type) {
+						case *ssa.Phi:
+							work = append(work, y)
+						case *ssa.ChangeType:
+							work = append(work, y)
+						case *ssa.Slice:
+							work = append(work, y) // a sub-slice shares the buffer
+						case *ssa.Store:
+							if y.Val != x {
+								continue
+							}
+							if al, ok := y.Addr.(*ssa.Alloc); ok && !al.Heap {
+								// a local variable: follow its loads
+								if al.Referrers() != nil {
+									for _, l := range *al.Referrers() {
+										if u, ok := l.(*ssa.UnOp); ok {
+											work = append(work, u)
+										}
+									}
+								}
+								continue
+							}
+							if ia, ok := y.Addr.(*ssa.IndexAddr); ok {
+								if _, isAl := ia.X.(*ssa.Alloc); isAl {
+									// element of a call-site variadic slice: follow to the call
+									if al := ia.X.(*ssa.Alloc); al.Referrers() != nil {
+										for _, l := range *al.Referrers() {
+											if sl, ok := l.(*ssa.Slice); ok {
+												work = append(work, sl)
+											}
+										}
+									}
+									continue
+								}
+							}
+							bad++
+							c.Fail(rule, fname(fn)+":Item.Key() stored", c.P.InstrPos(y), "an iterator item's key (valid only until the iterator advances) is stored; use KeyCopy")
+						case *ssa.MapUpdate:
+							bad++
+							c.Fail(rule, fname(fn)+":Item.Key() stored in a map", c.P.InstrPos(y), "an iterator item's key (valid only until the iterator advances) is stored; use KeyCopy")
+						case ssa.CallInstruction:
+							cn := calleeName(y)
+							switch {
+							case cn == "builtin.append":
+								bad++
+								c.Fail(rule, fname(fn)+":Item.Key() appended", c.P.InstrPos(y), "an iterator item's key (valid only until the iterator advances) is appended to a slice; use KeyCopy")
+							case strings.HasPrefix(cn, "github.com/dgraph-io/badger/v4.(*WriteBatch).") || strings.HasPrefix(cn, "github.com/dgraph-io/badger/v4.(*Txn).Set") || strings.HasPrefix(cn, "github.com/dgraph-io/badger/v4.(*Txn).Delete") || strings.HasPrefix(cn, "github.com/dgraph-io/badger/v4.NewEntry"):
+								bad++
+								c.Fail(rule, fname(fn)+":Item.Key()→"+cn[strings.LastIndex(cn, ".")+1:], c.P.InstrPos(y), "an iterator item's key is handed to "+cn+", which keeps the reference until the batch/transaction is flushed, while the key is only valid until the iterator advances: the operation is applied to whatever key the buffer holds later (use KeyCopy)")
+							}
+						}
+					}
+				}
+			}
+		}
+	}
+	if bad == 0 {
+		c.Check(n >= 4, rule, "Item.Key() never escapes", "", itoa(n)+" uses of an iterator item's key, all consumed on the spot (decode/compare)", "no use of badger Item.Key() found in the node databases")
 	}
 }
